@@ -72,6 +72,40 @@ def scan_items(t, i, end, fns, enums, mod=""):
             scan_items(t, i + 3, j - 1, fns, enums, mod + t[i + 1][1] + "::")
             i = j
             continue
+        if k == "id" and v == "struct" and t[i + 1][0] == "id":
+            name = t[i + 1][1]
+            j = i + 2; depth = 0
+            while not (t[j][1] in ("{", ";", "(") and depth == 0):
+                if t[j][1] == "<": depth += 1
+                elif t[j][1] == ">": depth -= 1
+                j += 1
+            if t[j][1] == "{":
+                e = skip_balanced(t, j, "{", "}")
+                fields = {}
+                x = j + 1
+                while x < e - 1:
+                    if t[x][0] == "op" and t[x][1] == "#":
+                        x = skip_balanced(t, x + 1, "[", "]"); continue
+                    if t[x][0] == "id" and t[x][1] == "pub":
+                        x += 1
+                        if t[x][1] == "(": x = skip_balanced(t, x, "(", ")")
+                        continue
+                    if t[x][0] == "id" and t[x + 1][1] == ":":
+                        fname = t[x][1]; y = x + 2; d = 0; ids = []
+                        while y < e - 1 and not (t[y][1] == "," and d == 0):
+                            if t[y][1] in ("<", "(", "["): d += 1
+                            elif t[y][1] in (">", ")", "]"): d -= 1
+                            elif t[y][0] == "id" and d == 0: ids.append(t[y][1])
+                            elif t[y][0] == "id" and d == 1 and ids and ids[-1] in ("RefCell", "Option", "Reference"): ids.append(t[y][1])
+                            y += 1
+                        ids = [q for q in ids if q not in ("dyn", "mut", "RefCell", "Option", "Reference", "core", "cell", "streams", "converters", "crate")]
+                        if ids: fields[fname] = ids[-1]
+                        x = y + 1
+                        continue
+                    x += 1
+                enums.setdefault("__structs__", {})[name] = fields
+                i = e
+                continue
         if k == "id" and v == "enum":
             name = t[i + 1][1]
             j = i + 2
@@ -417,6 +451,16 @@ class P:
             self.eat("unsafe"); return self.block()
         if v == "{":
             return self.block()
+        if v == "<" and k == "op":
+            # <Type as Trait<Args>>::method : the ids between the brackets select the impl
+            self.eat("<"); depth = 1; ids = []
+            while depth:
+                kk, vv = self.eat()
+                if vv == "<": depth += 1
+                elif vv == ">": depth -= 1
+                elif kk == "id": ids.append(vv)
+            self.eat("::"); _, name = self.eat()
+            return ("ufcs", ids, name)
         if v == "match":
             self.eat(); scrut = self.expr(nostruct=True); self.eat("{"); arms = []
             while not self.at("}"):
@@ -493,6 +537,7 @@ class Emitter:
         self.tmp = 0
         self.depth = 0
         self.inputs = set()
+        self.dispatch = None          # e.g. "State": which of several impls of one trait for the same type is meant
         self.int_vars = set()         # locals initialised with an integer literal: usize counters
         self.array_input = None       # the field iterated by `for _ in &self.<field>`: its length is the const generic N
 
@@ -600,6 +645,9 @@ class Emitter:
         if hint:
             h = [c for c in cands if c[0].split("<")[0].lower() == hint.replace("_", "").lower() or c[0] == hint]
             if h: cands = h
+        if len(cands) > 1 and self.dispatch:
+            d = [c for c in cands if self.dispatch in c[1].get("targs", [])]
+            if d: cands = d
         if len(cands) == 1:
             return cands[0]
         # identical token streams are the same function for our purposes
@@ -623,7 +671,10 @@ class Emitter:
         self.depth += 1
         body = parse_fn(f["toks"])
         r = self.fresh("r"); tmps = [self.fresh("a") for _ in args]
-        sub = Emitter(self.fns, self.enums, self.consts, key); sub.tmp = self.tmp + 100 * self.depth; sub.depth = self.depth
+        # a trait's default method runs on the implementor: keep the caller's type (and impl selection) for calls on self
+        sub = Emitter(self.fns, self.enums, self.consts, self.self_key if key.startswith("trait:") else key)
+        sub.dispatch = self.dispatch
+        sub.tmp = self.tmp + 100 * self.depth; sub.depth = self.depth
         inner = "(ECatch %s)" % sub.expr(body)
         self.inputs |= sub.inputs
         for pname, tname in reversed(list(zip(f["params"], tmps))):
@@ -754,6 +805,15 @@ class Emitter:
             return inner
         if k == "call":
             fn, args = e[1], e[2]
+            if fn[0] == "ufcs" and args:
+                # <T as Trait<X>>::f(recv, ..) = recv.f(..) with the impl selected by the ids
+                old = self.dispatch
+                for w in ("State", "Command", "TerminalData"):
+                    if w in fn[1]: self.dispatch = w
+                try:
+                    return self.expr(("mcall", args[0], fn[2], args[1:]))
+                finally:
+                    self.dispatch = old
             if fn[0] == "path":
                 path = self.res(fn[1])
                 if path in (["Time"], ["DimensionlessInteger"]) and len(args) == 1 and args[0][0] != "num":
@@ -783,7 +843,7 @@ class Emitter:
                 return "(EWriteSlot %s %s %s)" % (self.lval(recv[1]), self.expr(recv[2]), self.expr(args[0]))
             if name == "assume_init" and not args: return "(EAssumeInit %s)" % self.expr(recv)
             if name == "split_at" and len(args) == 1: return "(ESplitAt %s %s)" % (self.expr(recv), self.expr(args[0]))
-            if name in ("clone", "to_owned") and not args: return self.expr(recv)
+            if name in ("clone", "to_owned", "borrow", "borrow_mut") and not args: return self.expr(recv)
             if name == "into" and not args: return "(EInto %s)" % self.expr(recv)
             if name in ("unwrap",) and not args: return "(EUnwrap %s)" % self.expr(recv)
             if name == "expect" and len(args) == 1: return "(EUnwrap %s)" % self.expr(recv)
@@ -798,9 +858,16 @@ class Emitter:
                 return "(EOp 44 [%s; %s])" % (self.expr(recv), self.expr(args[0]))
             if name in METHOD_OPS:
                 return "(EOp %d %s)" % (METHOD_OPS[name], self.lst([self.expr(recv)] + [self.expr(a) for a in args]))
+            if name == "get" and len(args) == 1 and recv[0] == "field" and recv[1] == ("path", ["self"]):
+                # a History consulted at a time: an external function of the time
+                self.inputs.add(recv[2])
+                return "(ECallFn (EVar %s) %s)" % (qs("get:" + recv[2]), self.expr(args[0]))
             # calls of the crate's own functions: inline the translated body
             hint = None
-            if recv == ("path", ["self"]):
+            if recv[0] == "field" and recv[1] == ("path", ["self"]):
+                st = self.enums.get("__structs__", {}).get((self.self_key or "").split("<")[0], {})
+                hint = st.get(recv[2])
+            elif recv == ("path", ["self"]):
                 hint = self.self_key
             elif recv[0] == "path" and len(recv[1]) == 1:
                 hint = recv[1][0]
